@@ -191,16 +191,19 @@ CLAIMED = {
         design='3/C18'),
     'C15': dict(
         text=('Bounded model checking of the iteration core of src/dseq.c (__get_dir, __seq_this, __seq_next, '
-              '__in_range_p, __fixup_fst, skipp, date_add) called as main() calls it: day/week steps over day numbers '
-              'with every skip set and --compute-from-last, month/year steps over ymd dates, and time-of-day bounds; '
-              'the emitted values equal the reference progression and the run ends inside the bound; increments that '
-              'cannot move the value must be refused or give nothing. Assume-guarantee: dt_dtadd inside dseq.c is its '
-              'contract, which separate obligations prove equal to the real dt_dtadd on the domain used.'),
-        note=('weaker than driving main(): option/text parsing, promotion of mixed arguments and the switch to day counts '
-              'are not driven; <= 7 (quick) / 11..13 (thorough) members per sequence; date-time sequences, compound and '
-              'alternative increments, business days, equal time bounds outside'),
-        technique='CBMC bounded model checking of the dseq iteration core, assume-guarantee on dt_dtadd',
-        design='3/C15'),
+              '__in_range_p, __fixup_fst, skipp, date_add), step by step from an arbitrary state: direction (0 iff the '
+              'increment cannot move the value: refused), range test (iff LAST not passed, day carries of times included), '
+              'this/next (first member not skipped, exactly one increment further, strictly beyond), from-last anchoring; for '
+              'day numbers with d/w steps and every skip set, ymd dates with month/year steps, times of day with h/m/s and '
+              'compound h+m steps. Assume-guarantee: dt_dtadd, dt_dtcmp, dt_dt_in_range_p, dt_get_wday inside dseq.c are '
+              'contracts, proved equal to the real functions by separate obligations; the weekday is an arbitrary function '
+              'of the day number for the solver.'),
+        note=('a whole run (even four members) does not fit the solver: the steps compose to the printed progression and '
+              'to termination by an induction argued in DESIGN 8.4, not by a query; main() argument handling, date-time '
+              'sequences, alternative increments, business days, skip sets with month steps or times, equal time bounds '
+              'outside; two defects found and fixed'),
+        technique='CBMC bounded model checking of each step of the dseq iteration from arbitrary states, assume-guarantee on library calls',
+        design='8.4'),
 }
 
 NA = {}
